@@ -3,6 +3,7 @@
 Require Import BB.Base.Str BB.Base.Xml BB.Model.Types BB.Model.Post.
 Require Import Permutation.
 Require Import BB.Proofs.PostDisplaced BB.Proofs.PostConserve BB.Proofs.PostAttr.
+Require Import BB.Model.XmlGen BB.Proofs.PostQuiet.
 
 (* for every XML tree (not only parser output): if footnote resolution returns, no internal
    placeholder element is left anywhere in the result *)
@@ -51,3 +52,24 @@ Proof. vm_compute. reflexivity. Qed.
 
 Example C14_example_is_well_formed : wfDx ex14 = true.
 Proof. vm_compute. reflexivity. Qed.
+
+(* Resolution has nothing to do where there are no footnotes: a tree in which no element carries the displaced attribute and none is a
+   displaced block comes out as it went in - up to the merging of adjacent text nodes that the serialise / re-parse step of the
+   builder does ([normalise_text]).  For every tree (Proofs/PostQuiet.v). *)
+Theorem C14_footnote_free_tree_is_left_alone : forall x,
+  quiet x = true -> resolve_displaced_content x = OkR (normalise_text (displaced_fuel x) x).
+Proof. exact resolve_quiet. Qed.
+Print Assumptions C14_footnote_free_tree_is_left_alone.
+
+(* ... and with it: on a tree without footnotes, without childless removable containers, without attachments and with merged text
+   nodes, the whole of post-processing is eId generation - nothing else is touched *)
+Theorem C14_post_processing_is_eid_generation : forall prefix x,
+  quiet x = true -> text_merged x = true -> no_empties x = true -> no_attachment x = true ->
+  post_process prefix x = generate_eids prefix x.
+Proof. exact post_process_is_eid_generation. Qed.
+Print Assumptions C14_post_processing_is_eid_generation.
+
+Example C14_quiet_example :
+  let x := El (of_string "section") [] [El (of_string "num") [] [Tx (of_string "1")]; El (of_string "content") [] [El (of_string "p") [] [Tx (of_string "a"); El (of_string "b") [] [Tx (of_string "c")]; Tx (of_string "d")]]] in
+  quiet x = true /\ text_merged x = true /\ no_empties x = true /\ no_attachment x = true.
+Proof. vm_compute. repeat split. Qed.
